@@ -84,6 +84,35 @@ def _(c):
     c.modifies("self._keys[]", "self._data{}")
 
 
+# a refused append (values that are not a sequence) leaves the table exactly as it was -- no key without a record; a valid retry then behaves
+# like a first append
+for meth in ("append", "__setitem__"):
+    @contract(PT + "." + meth, "C20", name=f"ParameterTable.{meth}[keyed-refused]")
+    def _(c, meth=meth):
+        c.bound = BOUND + "; the refused values: an integer, none"
+        for bad, label in ((5, "int"), (None, "none")):
+            _keyed_cases(c, (lambda bad: lambda b, n, key: dict(args=[keyed(b, n), key, bad]))(bad))
+            c.scenarios = [((nm + "-" + label) if "-int" not in nm and "-none" not in nm else nm, fn) for nm, fn in c.scenarios]
+        c.requires("wf(self)")
+        c.raises("True", label="refused")
+        c.on_raise("view(self) == old(view(self)) and wf(self)", "unchanged-on-error")
+        c.modifies()
+
+
+@contract(PT + ".append", "C20", name="ParameterTable.append[keyed-retry-after-a-refusal]")
+def _(c):
+    c.bound = BOUND + "; one refused append of the same key before"
+
+    def mk(b, n, key):
+        t = keyed(b, n)
+        r, exc = b.call_catching(b.getattr(t, "append"), key, 5)
+        return dict(args=[t, key, (b.int("va"), b.real("vb"))], env=dict(key=key, t0=None))
+    _keyed_cases(c, mk)
+    c.ensures("wf(self) and len(self._keys) == len(set(self._keys)) and [k for k, r in view(self)] == self._keys", "every-key-once-and-with-a-record")
+    c.ensures("dict(view(self))[key] == (args[1][0], args[1][1])", "the-retry-is-stored")
+    c.no_raise()
+
+
 @contract(PT + ".__delitem__", "C20", name="ParameterTable.__delitem__[keyed]")
 def _(c):
     c.bound = BOUND
